@@ -1163,6 +1163,10 @@ func (g *jsGen) classDecl() string {
 			sb.WriteString("static " + r.Pick([]string{"sm", "create", "of"}) + "(" + g.params(true) + "){" + g.funcBodyInline() + "}")
 		case 5:
 			if r.Bool() {
+				// a field directly before the static block: the two need a separator in the output
+				sb.WriteString(r.Pick([]string{"f5", "static t5", "#q5", "\"k 5\"", "5"}) + r.Pick([]string{"", "=" + g.number(), "=" + g.paren(g.expr(2))}) + ";")
+			}
+			if r.Bool() {
 				// a lexical name inside the static block that looks like a generated short name
 				n := r.Pick([]string{"e", "t", "n", "r", "i"})
 				sb.WriteString("static{let " + n + "=" + g.number() + ";h(" + g.nextSite() + "," + n + "," + g.someVar(false) + "," + g.someVar(false) + ")}")
